@@ -284,9 +284,10 @@ func Harness_app_bad_input() {
 	cmd := hFileCmds[ci]
 	verifLabel("site", cmd.name)
 	// 0 none; 1 bad syntax in the log; 2 bad number in the log; 3 bad syntax in the book; 4 bad number in the book;
-	// 5 log unreadable (a directory); 6 book unreadable (a directory)
-	fault := verifChoose("fault", 7)
-	verifLabel("fault", []string{"none", "log-bad-syntax", "log-bad-number", "book-bad-syntax", "book-bad-number", "log-is-directory", "book-is-directory"}[fault])
+	// 5 log unreadable (a directory); 6 book unreadable (a directory);
+	// 7 malformed line in a day after the end of the period in force (--end given globally)
+	fault := verifChoose("fault", 8)
+	verifLabel("fault", []string{"none", "log-bad-syntax", "log-bad-number", "book-bad-syntax", "book-bad-number", "log-is-directory", "book-is-directory", "log-bad-number-after-period"}[fault])
 	logText, dbText := hAppLog, hAppDB
 	badLine, badNo := "", ""
 	switch fault {
@@ -298,6 +299,8 @@ func Harness_app_bad_input() {
 		dbText, badLine, badNo = "f0:\n  x: 2\n# c\n  y:1\nf1:\n  f0: 2\n", "  y:1", "4"
 	case 4:
 		dbText, badLine, badNo = "\nf0:\n  x: two\n  y: 1\n", "  x: two", "3"
+	case 7:
+		logText, badLine, badNo = "2021/01/01:\n  f1: 2\n2021/01/05:\n  f0: 1\n2021/01/06:\n  f0: 1\n  x: 1,5\n2021/01/01:\n  x: 1\n", "  x: 1,5", "7"
 	}
 	logName, dbName := "", ""
 	switch fault {
@@ -312,16 +315,20 @@ func Harness_app_bad_input() {
 	default:
 		dbName = verifFile("db", dbText)
 	}
-	relevant := fault == 0 || (cmd.log && (fault == 1 || fault == 2 || fault == 5)) || (cmd.db && (fault == 3 || fault == 4 || fault == 6))
+	relevant := fault == 0 || (cmd.log && (fault == 1 || fault == 2 || fault == 5 || fault == 7)) || (cmd.db && (fault == 3 || fault == 4 || fault == 6))
 	if !relevant {
 		return
 	}
-	out, err := hApp(-1, append([]string{"--logfile=" + logName, "--database=" + dbName}, cmd.args...)...)
+	global := []string{"--logfile=" + logName, "--database=" + dbName}
+	if fault == 7 {
+		global = append(global, "--end=2021/01/02")
+	}
+	out, err := hApp(-1, append(global, cmd.args...)...)
 	verifCover("ran")
 	switch {
 	case fault == 0:
 		verifAssert("well-formed-input-succeeds", err == nil && len(verifLines(out)) > 0)
-	case fault <= 4:
+	case fault <= 4 || fault == 7:
 		verifAssert("malformed-input-is-error", err != nil)
 		if err != nil {
 			msg := err.Error()
@@ -375,4 +382,65 @@ func Harness_app_probe2() {
 	out, err := hApp(-1, "--logfile="+verifFile("log", hAppLog), "--database="+verifFile("db", hAppDB), "reg")
 	verifLabel("out", out)
 	verifAssert("ok", err != nil)
+}
+
+// ---- composition over the log history, through the real commands
+
+var hComposeCmds = [][]string{
+	{"register"},
+	{"register", "--internal-template-name", "left-aligned"},
+	{"register", "--use-old-reg-reporter"},
+	{"csv", "log"},
+	{"print"},
+	{"reg", "-f", "f"},
+	{"reg", "-s", "x"},
+}
+
+// Harness_app_compose: for the per-day reports, through the real application, the report of
+// log1 ++ log2 is the report of log1 followed by the report of log2 - for day blocks with
+// symbolic dates (any order, possibly the same date), with notes, with or without a period in
+// force.
+func Harness_app_compose() {
+	ci := verifBound("command", -1)
+	if ci < 0 {
+		ci = verifChoose("command", len(hComposeCmds))
+	}
+	cmd := hComposeCmds[ci]
+	verifLabel("site", strings.Join(cmd, " "))
+	layout := "2006/01/02"
+	notes := verifChoose("notes", 2) == 1
+	n2 := verifChoose("entries-of-second-block", 3) // an empty day, one entry, two entries
+	block := func(i int) string {
+		src := verifDay("day", layout, 40) + ":\n"
+		if notes {
+			src += "  # mood: m" + string(rune('0'+i)) + "\n  # plain remark " + string(rune('0'+i)) + "\n"
+		}
+		n := 2
+		if i == 2 {
+			n = n2
+		}
+		foods := []string{"f0", "f1", "x", "unknown"}
+		for k := 0; k < n; k++ {
+			src += "  " + foods[(i+2*k)%4] + ": " + string(rune('1'+k)) + "\n"
+		}
+		return src
+	}
+	b1, b2 := block(1), block(2)
+	db := verifFile("db", hAppDB)
+	global := []string{"--database=" + db, "--no-color"}
+	if verifChoose("begin", 2) == 1 {
+		global = append(global, "--begin="+verifDay("begin", layout, 40))
+	}
+	if verifChoose("end", 2) == 1 {
+		global = append(global, "--end="+verifDay("end", layout, 40))
+	}
+	run := func(tag, text string) (string, error) {
+		return hApp(-1, append(append([]string{"--logfile=" + verifFile(tag, text)}, global...), cmd...)...)
+	}
+	o12, e12 := run("log12", b1+b2)
+	o1, e1 := run("log1", b1)
+	o2, e2 := run("log2", b2)
+	verifCover("composed")
+	verifAssert("compose-runs-ok", e12 == nil && e1 == nil && e2 == nil)
+	verifAssert("report(log1++log2)=report(log1)++report(log2)", o12 == o1+o2)
 }
